@@ -1,4 +1,5 @@
 import CalVerif.Model.Reader
+import CalVerif.Model.Auto
 /-! # C07 — read calls are pure and the alternative access paths agree
 
     Theorems about the reader state machine of `Model/Reader.lean`. What they carry: the *design*
@@ -166,3 +167,57 @@ example : (run demoFile {} [.range "A", .withHeaderRow (.row 3), .range "A", .ta
     ["own(A@d)", "unit", "own(A@3)", "panic:not-loaded", "unit", "own(A@3)|w", "unit", "own(A@d)"] := by decide
 
 end Reader
+
+/-! ## auto-detection: which reader is chosen (`Model/Auto.lean`)
+
+    `auto_equals_format_reader` above says that the wrapper forwards; these say which reader it wraps. The
+    hypothesis "no reader earlier in the trial order opens the bytes" is not provable here — it is a fact about
+    the four container formats (a compound file is not a zip, an xlsx has no `xl/workbook.bin`, an ods has its
+    `mimetype`) — and is MEASURED by the correspondence run on every generated file (all four `new` are called). -/
+
+namespace Auto
+
+/-- auto-detection opens a file iff some reader opens it -/
+theorem from_rs_opens_iff (a : Accepts) : (fromRs a).isSome = (a.xls || a.xlsx || a.xlsb || a.ods) := by
+  cases a with | mk x1 x2 x3 x4 => cases x1 <;> cases x2 <;> cases x3 <;> cases x4 <;> rfl
+
+/-- the reader it picks does open the file, and no reader earlier in the order does -/
+theorem from_rs_first (a : Accepts) (f : Fmt) (h : fromRs a = some f) :
+    a.of f = true ∧ ∀ g, (trialOrder.takeWhile (· ≠ f)).contains g = true → a.of g = false := by
+  cases a with | mk x1 x2 x3 x4 =>
+  cases f <;> cases x1 <;> cases x2 <;> cases x3 <;> cases x4 <;> simp [fromRs, trialOrder, Accepts.of] at h ⊢ <;>
+    (intro g hg; cases g <;> simp_all [Accepts.of])
+
+/-- **the property's clause**: if the format's own reader opens the bytes and no reader tried before it does,
+    auto-detection wraps exactly that reader (whatever the later readers would say) -/
+theorem auto_picks_own_reader (a : Accepts) (f : Fmt) (hown : a.of f = true)
+    (hearlier : ∀ g, (trialOrder.takeWhile (· ≠ f)).contains g = true → a.of g = false) : fromRs a = some f := by
+  cases a with | mk x1 x2 x3 x4 =>
+  cases f <;> simp [Accepts.of] at hown <;> subst hown
+  · rfl
+  · have := hearlier .xls (by decide); simp [Accepts.of] at this; subst this; rfl
+  · have h1 := hearlier .xls (by decide); have h2 := hearlier .xlsx (by decide)
+    simp [Accepts.of] at h1 h2; subst h1 h2; rfl
+  · have h1 := hearlier .xls (by decide); have h2 := hearlier .xlsx (by decide); have h3 := hearlier .xlsb (by decide)
+    simp [Accepts.of] at h1 h2 h3; subst h1 h2 h3; rfl
+
+/-- with a known extension `open_workbook_auto` is that reader and nothing else: its success or ITS error, never a
+    fallback to another format -/
+theorem from_path_known_extension (ext : String) (f : Fmt) (a : Accepts) (h : byExtension (some ext) = some f) :
+    fromPath (some ext) a = if a.of f then .opened f else .readerError f := by
+  simp [fromPath, h]
+
+/-- with an unknown (or no, or differently cased) extension it is the trial order of `open_workbook_auto_from_rs` -/
+theorem from_path_unknown_extension (ext : Option String) (a : Accepts) (h : byExtension ext = none) :
+    fromPath ext a = match fromRs a with | some f => .opened f | none => .cannotDetect := by
+  simp only [fromPath, h]
+  cases fromRs a <;> rfl
+
+example : fromRs ⟨false, true, false, false⟩ = some .xlsx := rfl
+example : fromRs ⟨false, true, true, true⟩ = some .xlsx := rfl
+example : fromRs ⟨false, false, false, false⟩ = none := rfl
+example : fromPath (some "xlsb") ⟨false, true, false, false⟩ = .readerError .xlsb := rfl
+example : fromPath (some "XLSX") ⟨false, true, false, false⟩ = .opened .xlsx := rfl
+example : byExtension (some "xlam") = some .xlsx := rfl
+
+end Auto
